@@ -357,7 +357,8 @@ type _tupleIteratorRepr struct {
 	nextIndex  int
 
 	// these are only used in repr.go
-	reprEnd int
+	reprEnd   int
+	reprIndex int
 }
 
 func (w *_tupleIteratorRepr) Next() (index int64, value datamodel.Node, _ error) {
@@ -385,7 +386,8 @@ type _listpairsIteratorRepr struct {
 	nextIndex  int
 
 	// these are only used in repr.go
-	reprEnd int
+	reprEnd   int
+	reprIndex int
 }
 
 func (w *_listpairsIteratorRepr) Next() (index int64, value datamodel.Node, _ error) {
@@ -393,7 +395,6 @@ func (w *_listpairsIteratorRepr) Next() (index int64, value datamodel.Node, _ er
 		if w.Done() {
 			return 0, nil, datamodel.ErrIteratorOverread{}
 		}
-		idx := w.nextIndex
 		key, value, err := (*_structIterator)(w).Next()
 		if err != nil {
 			return 0, nil, err
@@ -405,6 +406,9 @@ func (w *_listpairsIteratorRepr) Next() (index int64, value datamodel.Node, _ er
 		if err != nil {
 			return 0, nil, err
 		}
+		// the index is the position in the representation list: absent fields do not take one
+		idx := w.reprIndex
+		w.reprIndex++
 		return int64(idx), field, nil
 	}
 }
